@@ -718,11 +718,16 @@ pub fn run_c17(ctx: &Ctx, rep: &mut Report) {
                 // long inputs: one structural unit repeated thousands of times
                 1 => (proptest::sample::select(vec![";", ",", "<", "\"", "\\", "<a>,", "<a>;k=\"v\",", ";k=v", " ", "é", "<a>;é=\"😁\\\"\";"]), 1000usize..8000, "[<>;,\"a]{0,4}")
                     .prop_map(|(unit, n, tail)| {
-                        let mut s = String::from("<x>");
+                        // the repetition sits between two ordinary attributes
+                        // (leading / trailing separators are trimmed away)
+                        let mut s = String::from("<x>;k=v");
                         for _ in 0..n {
                             s.push_str(unit);
                         }
                         s.push_str(&tail);
+                        if n % 2 == 0 {
+                            s.push_str(";z=1");
+                        }
                         s
                     }),
                 // every kind of blank (ASCII and multi-byte white space, controls) next to
